@@ -340,9 +340,8 @@ func boxScenario(c *hx.Ctx, length int) {
 				who = live[r.Intn(len(live))]
 			}
 			w.pub(who, m)
-			if r.Intn(3) != 0 {
-				w.drainAll()
-			}
+			// the QoS cap is applied when the broker dequeues, i.e. right away: drain before any subscription changes
+			w.drainAll()
 		case x < 90 && len(live) > 0:
 			n := live[r.Intn(len(live))]
 			w.drain(n)
@@ -365,16 +364,16 @@ func boxScenario(c *hx.Ctx, length int) {
 	for _, p := range w.peers {
 		_ = p.conn.Close()
 	}
-	be.Close(200 * time.Millisecond)
+	be.Close(20 * time.Millisecond)
 }
 
 func runBox(c *hx.Ctx) {
 	if c.Replay != "" {
 		return
 	}
-	n, l := 60, 14
+	n, l := 25, 10
 	if c.Thorough() {
-		n, l = 400, 30
+		n, l = 250, 25
 	}
 	for i := 0; i < n; i++ {
 		boxScenario(c, l)
